@@ -586,6 +586,93 @@ structure ActPhase (K : PCtx) (po : Nat) (f : Nat) (args : List X.Expr) : Prop w
     | .exit cd s => ∃ c, Steps K.env (cfg i a b mem) st.io c s.io ∧ Exit K.env c s.io cd
     | .undef _ => True
 
+/-- A system call as a statement whose actuals are handled by `ActPhase`. -/
+theorem execS_syscall_phase (K : PCtx) (exitJ : Nat) (wf : K.WFS exitJ) (fuel : Nat) (id : Nat) (args : List X.Expr) (σ : X.St)
+    (hid : id < 3) (hP : ∀ f, f < fuel → ActPhase K 2 f args) :
+    ExecS K exitJ (optStmt (annotS K.ρ (.syscall id args))) σ (X.exec fuel K.xc (.syscall id args) σ) := by
+  intro gs code gs' i a b mem hg hat hr hsz hnl hci
+  have hopt : optStmt (annotS K.ρ (.syscall id args)) = .call (id : Int) "" (optArgsOf K.ρ args) := by
+    simp only [annotS, optStmt, optArgs_map, sysId_small id hid]
+  rw [hopt, genStmt_call_eq] at hg
+  have hne : ((id : Int) ≠ -1) := by omega
+  rw [if_pos hne] at hg
+  cases fuel with
+  | zero => unfold X.exec; trivial
+  | succ f =>
+    cases ht : X.tick K.xc σ with
+    | none => unfold X.exec; rw [ht]; trivial
+    | some st =>
+      have hs := tick_same _ _ _ ht
+      unfold X.exec
+      rw [ht]
+      simp only
+      split
+      · trivial
+      · obtain ⟨c1, gs1, c2, gs2, h1, h2, hcode, hgs'⟩ := callSeq_inv _ _ _ _ _ _ _ _ hg
+        simp only [CallKind.paramOffset, FB_PARAM_OFFSET_FUNC] at h2
+        have hlen : (optArgsOf K.ρ args).length = args.length := by simp [optArgsOf]
+        obtain ⟨f1o, f1s, f1c, f1os⟩ := genCallActuals_facts _ _ _ _ _ h1
+        simp only at f1o f1s f1c f1os
+        obtain ⟨b1o, b1s, _, b1p, b1c⟩ := bumpN_facts (countCalls (optArgsOf K.ρ args)) { gs1 with offset := gs.offset }
+        simp only at b1o b1s b1p b1c
+        obtain ⟨e2o, e2s, _, e2c⟩ := loadActuals_eff _ _ _ _ _ _ _ h2
+        subst hgs'
+        simp only [CallKind.paramOffset, FB_PARAM_OFFSET_FUNC, hlen] at hsz hci
+        subst hcode
+        simp only [low_append, List.append_assoc] at hat ⊢
+        have hb : gs2.size + (args.length + 2) ≤ K.S := Nat.le_trans (Nat.le_max_right _ _) hsz
+        have hrun := (hP f (Nat.lt_succ_self _)).run st gs c1 gs1 c2 gs2 i a b mem h1 h2
+          (by have h := hat; rw [← List.append_assoc] at h; exact h.left) (hr.same hs) hb hnl hci
+        have hio0 : st.io = σ.io := hs.2.2.2.1
+        cases hev : X.evalArgs f K.xc args st with
+        | undef w => simp only [Res.bind]; trivial
+        | exit c s =>
+          rw [hev] at hrun
+          simp only [Res.bind]
+          obtain ⟨c', st', he⟩ := hrun
+          rw [hio0] at st'
+          exact ⟨c', st', he⟩
+        | ok vs s =>
+          rw [hev] at hrun
+          simp only [Res.bind]
+          obtain ⟨a1, b1, mem1, st1, rep1, hvals, frm1⟩ := hrun
+          rw [hio0] at st1
+          have hwl : vs.length = args.length := evalArgs_length K.xc args f st s vs hev
+          cases hd : X.doSyscall (BitVec.ofNat 32 id) vs s with
+          | undef w => trivial
+          | exit cd s' =>
+            simp only
+            obtain ⟨ws, hws⟩ := doSyscall_ints _ vs s (by rw [hd]; intro w h; simp at h)
+            subst hws
+            have htl := exec_systail K wf.toWF id hid ws s s gs2.labelCount gs.offset
+              (i + (K.low c1).length + (K.low c2).length) a1 b1 mem1 s.io rfl
+              (by have := hat.right.right; simpa [Nat.add_assoc] using this) rep1
+              (fun k hk => by have := hvals k (by simpa using hk); simp only [List.getElem_map] at this; exact this)
+              hnl (by simp only [List.length_map] at hwl; omega)
+            rw [hd] at htl
+            obtain ⟨c, st2, ex⟩ := htl
+            have hs' := doSyscall_exit_state _ _ _ _ _ hd
+            refine ⟨c, ?_, ?_⟩
+            · rw [hs']; exact st1.trans st2
+            · rw [hs']; exact ex
+          | ok r s' =>
+            simp only
+            obtain ⟨ws, hws⟩ := doSyscall_ints _ vs s (by rw [hd]; intro w h; simp at h)
+            subst hws
+            have htl := exec_systail K wf.toWF id hid ws s s gs2.labelCount gs.offset
+              (i + (K.low c1).length + (K.low c2).length) a1 b1 mem1 s.io rfl
+              (by have := hat.right.right; simpa [Nat.add_assoc] using this) rep1
+              (fun k hk => by have := hvals k (by simpa using hk); simp only [List.getElem_map] at this; exact this)
+              hnl (by simp only [List.length_map] at hwl; omega)
+            rw [hd] at htl
+            obtain ⟨a', b', mem', st2, rep2, _, _⟩ := htl
+            refine ⟨a', b', mem', ?_, ?_⟩
+            · simp only [List.length_append, ← Nat.add_assoc]
+              exact st1.trans st2
+            · have hst := doSyscall_state _ _ _ _ _ hd
+              rw [hst]
+              exact rep2.setIo _
+
 /-- The value of an expression of the class is an integer. -/
 theorem eval_ip_int (ρ : String → Option Word) (callOk : X.Expr → Bool) (xc : X.Ctx) (fuel : Nat) (e : X.Expr) (σ σ' : X.St)
     (r : ArrRef) (hip : ipE ρ callOk e = true) (h : X.eval fuel xc e σ = .ok (.arr r) σ') : False := by
@@ -1079,6 +1166,15 @@ theorem argsOK_5 (args : List X.Expr) (h : argsOk5 G.pk G.pnames G.xc.impure G.r
     rw [he]
     exact actPhase_one (KOf G pi sp dep hi) (ok.wfs pi hpi sp dep hi hlo hspv).toWF po F (fun _ => true) pre e post
       hpre hpost (ipE5_ipE _ _ _ _ e hipe) hE f (by omega)
+
+/-- The actuals of a system call that are constants except one of the class. -/
+theorem sysPhase_5 (args : List X.Expr) (h : oneImp5 G.pk G.pnames G.xc.impure G.rho args = true) :
+    ∀ f, f ≤ F → ActPhase (KOf G pi sp dep hi) 2 f args := by
+  intro f hf
+  obtain ⟨pre, e, post, he, hpre, hpost, hipe, hE⟩ := args_one_correct ok hpi sp dep hi hlo hspv hstack F hcs args h
+  rw [he]
+  exact actPhase_one (KOf G pi sp dep hi) (ok.wfs pi hpi sp dep hi hlo hspv).toWF 2 F (fun _ => true) pre e post
+    hpre hpost (ipE5_ipE _ _ _ _ e hipe) hE f hf
 
 /-- A condition with one call of any callee. -/
 theorem condOK_ip (c : X.Expr) (hip : ipE5 G.pk G.pnames G.xc.impure G.rho c = true) :
